@@ -5,14 +5,16 @@
 
    FINDINGS (statements of the task that are false of the model as written):
 
-   1. `starts_ok` (start values >= 0) does NOT make get_bullet total.
-      Counterexample: env_numtbl v = [("1", [(Some "lowerLetter", Some 0)])],
-      fmt = (Some "1", Some "0"), fresh counters.  get_par_number gives the
-      ordinal 1 + (0 - 1) = 0 and lower_letter 0 = Err ValueError (likewise
-      upper_letter, lower_roman, upper_roman).  The right hypothesis is
-      `starts_ok'` below: every start value is >= 1 OR the level's format is
-      one whose formatter is total (decimal, bullet, or an unknown format,
-      which falls back to bullet).
+   1. While this file was being written the model of get_bullet changed
+      (mirroring an upstream fix): an ordinal the format rejects (ValueError
+      of lower_letter / roman numerals on an ordinal below one) is now
+      printed in decimal.  Before that change `starts_ok` (start values >= 0)
+      did NOT make get_bullet total: numId2Attrs = {"1": [("lowerLetter", 0)]}
+      gives the first paragraph the ordinal 1 + (0 - 1) = 0 and
+      lower_letter 0 raised ValueError.  With the fallback no hypothesis on
+      the start values is needed at all: the `_strong` lemmas below do not
+      mention them, and the lemmas with the names and shapes asked for keep
+      `starts_ok v` as an (unused) hypothesis.
 
    2. the formatter results are not style_ok in general (w:vertAlign with an
       empty or blank w:val gives a blank style string, and html_close then
@@ -63,8 +65,8 @@ Definition local_ok (v : env) (t : anode) : bool :=
 Fixpoint all_local_ok (v : env) (t : anode) : bool :=
   match t with AX _ => true | AE e ks => local_ok v t && forallb (all_local_ok v) ks end.
 
-(* numbering definitions never yield an ordinal below one: start values are >= 0
-   (the hypothesis suggested first; NOT sufficient, see finding 1) *)
+(* numbering definitions never yield a negative ordinal: start values are >= 0
+   (no longer needed for totality, see finding 1) *)
 Definition starts_ok (v : env) : Prop :=
   forall n lvls a z, In (n, lvls) (env_numtbl v) -> In a lvls -> snd a = Some z -> (0 <= z)%Z.
 
@@ -90,20 +92,6 @@ Definition local_ok' (v : env) (t : anode) : bool :=
 Fixpoint all_local_ok' (v : env) (t : anode) : bool :=
   match t with AX _ => true | AE e ks => local_ok' v t && forallb (all_local_ok' v) ks end.
 
-(* the formatter a level uses, as get_bullet computes it *)
-Definition fn_of (fmt : option str) : numfn :=
-  match dict_get (match fmt with Some (c :: f) => c :: f | _ => s_bullet_key end) numfmt_table with
-  | Some f => f
-  | None => NFBullet
-  end.
-Definition total_fn (f : numfn) : bool :=
-  match f with NFDecimal | NFBullet => true | _ => false end.
-(* the right hypothesis on the numbering table: a level whose formatter is
-   partial (letters, roman numerals) starts at one or above *)
-Definition starts_ok' (v : env) : Prop :=
-  forall n lvls a z, In (n, lvls) (env_numtbl v) -> In a lvls -> snd a = Some z ->
-    (1 <= z)%Z \/ total_fn (fn_of (fst a)) = true.
-
 Lemma style_okb_ok st : style_okb st = true <-> style_ok st.
 Proof.
   unfold style_okb, style_ok. rewrite forallb_forall, Forall_forall.
@@ -126,12 +114,47 @@ Proof.
   - eexists; reflexivity.
 Qed.
 
-Lemma apply_numfn_total_fn : forall f z, total_fn f = true -> exists s, apply_numfn f z = Ok s.
+(* the only exception a number formatter raises is ValueError *)
+Lemma apply_numfn_err : forall f z x, apply_numfn f z = Err x -> x = ValueError.
 Proof.
-  intros f z H. destruct f; try discriminate H; cbn [apply_numfn]; unfold decimal, bullet;
-    eexists; reflexivity.
+  intros f z x H. destruct z as [|p|p].
+  - destruct f; cbv [apply_numfn decimal bullet upper_letter upper_roman lower_letter lower_roman bind] in H;
+      first [discriminate H|injection H as <-; reflexivity].
+  - destruct (apply_numfn_total f (Zpos p)) as [s Hs]; [lia|]. congruence.
+  - destruct f; cbv [apply_numfn decimal bullet upper_letter upper_roman lower_letter lower_roman bind] in H;
+      first [discriminate H|injection H as <-; reflexivity].
 Qed.
 
+(* ... and get_bullet catches it *)
+Lemma render_num_total : forall f z, exists s, render_num f z = Ok s.
+Proof.
+  intros f z. unfold render_num. destruct (apply_numfn f z) as [s|x] eqn:E.
+  - exists s. reflexivity.
+  - rewrite (apply_numfn_err f z x E). unfold decimal. eexists; reflexivity.
+Qed.
+
+Lemma get_bullet_total_strong : forall tbl fmt number,
+  (match fmt with (Some _, Some l) => int_of_str l <> None | _ => True end) ->
+  exists bl, get_bullet tbl fmt number = Ok bl.
+Proof.
+  intros tbl fmt number Hfmt.
+  destruct fmt as [[numId|] [ilvl|]]; try (eexists; reflexivity).
+  destruct number as [num|]; [|eexists; reflexivity].
+  rewrite get_bullet_eq.
+  destruct (render_num_total (bullet_fn tbl numId ilvl) num) as [b Hb]. rewrite Hb.
+  cbn [bind]. cbv zeta.
+  destruct (int_of_str ilvl) as [lvl|]; [|congruence]. cbn [of_opt bind]. eexists; reflexivity.
+Qed.
+
+Lemma get_bullet_total : forall v fmt cs cs' number, starts_ok v ->
+  get_par_number (to_numtable v) cs fmt = (cs', number) ->
+  (match fmt with (Some _, Some l) => int_of_str l <> None | _ => True end) ->
+  exists bl, get_bullet (to_numtable v) fmt number = Ok bl.
+Proof. intros v fmt cs cs' number _ _ Hfmt. apply get_bullet_total_strong. exact Hfmt. Qed.
+
+(* the ordinal itself: count + start - 1 with count >= 1; under starts_ok it
+   is never negative (it may be 0, which the letter and roman formats
+   reject and get_bullet then prints in decimal) *)
 Lemma dict_get_In_inv {V} : forall (d : list (str * V)) k x, dict_get k d = Some x -> In (k, x) d.
 Proof.
   induction d as [|[k0 v0] d IH]; intros k x H; [discriminate H|].
@@ -154,50 +177,22 @@ Proof.
   exists n, lvls, a. auto.
 Qed.
 
-Lemma get_bullet_total : forall v fmt cs cs' number, starts_ok' v ->
-  get_par_number (to_numtable v) cs fmt = (cs', number) ->
-  (match fmt with (Some _, Some l) => int_of_str l <> None | _ => True end) ->
-  exists bl, get_bullet (to_numtable v) fmt number = Ok bl.
+Lemma par_number_nonneg : forall v fmt cs cs' z, starts_ok v ->
+  get_par_number (to_numtable v) cs fmt = (cs', Some z) -> (0 <= z)%Z.
 Proof.
-  intros v fmt cs cs' number Hst Hpn Hfmt.
-  destruct fmt as [[numId|] [ilvl|]]; try (eexists; reflexivity).
+  intros v fmt cs cs' z Hst Hpn.
+  destruct fmt as [[numId|] [ilvl|]]; try discriminate Hpn.
   unfold get_par_number in Hpn.
   destruct (increment_list_counter _ ilvl) as [d' c] eqn:Ei.
-  injection Hpn as <- <-.
+  injection Hpn as _ <-.
   assert (Hc : (1 <= Z.of_N c)%Z).
   { unfold increment_list_counter in Ei. injection Ei as _ <-.
     destruct (dict_get ilvl _); lia. }
-  rewrite get_bullet_eq. unfold bullet_fn, get_start_value_zero_based.
-  destruct (int_of_str ilvl) as [lvl|] eqn:El; [|congruence].
-  assert (Hfin : forall fn z, (exists s, apply_numfn fn z = Ok s) ->
-            exists bl, (b <- apply_numfn fn z ;;
-                        let b' := if str_eqb b bullet_str then b else b ++ [41] in
-                        lvl0 <- of_opt ValueError (Some lvl) ;;
-                        Ok (repeat_str s_tab (Z.to_nat lvl0) ++ b' ++ s_tab)) = Ok bl).
-  { intros fn z [s Hs]. rewrite Hs. cbn [bind of_opt]. eexists; reflexivity. }
-  destruct (get_num_fmt_attributes (to_numtable v) numId ilvl) as [na|] eqn:Ea.
-  - destruct (num_attrs_in v numId ilvl na Ea) as (n & lvls & a & I1 & I2 & ->).
-    destruct a as [f st]. cbn [fst snd na_fmt na_start].
-    destruct st as [z|].
-    + destruct (Hst n lvls (f, Some z) z I1 I2 eq_refl) as [Hz|Ht].
-      * apply Hfin. apply apply_numfn_total. lia.
-      * apply Hfin. apply apply_numfn_total_fn. exact Ht.
-    + apply Hfin. apply apply_numfn_total. lia.
-  - apply Hfin. apply apply_numfn_total. lia.
-Qed.
-
-(* the hypothesis suggested first is not enough *)
-Lemma get_bullet_starts_ok_counterexample :
-  let v := {| env_x2h := []; env_rels := []; env_dup := false;
-              env_numtbl := [([49], [(Some [108;111;119;101;114;76;101;116;116;101;114], Some 0%Z)])] |} in
-  let fmt := (Some [49], Some [48]) in
-  starts_ok v /\
-  get_bullet (to_numtable v) fmt (snd (get_par_number (to_numtable v) [] fmt)) = Err ValueError.
-Proof.
-  cbv zeta. split.
-  - intros n lvls a z [E|[]] Ia Hz. injection E as <- <-. destruct Ia as [<-|[]].
-    cbn in Hz. injection Hz as <-. lia.
-  - vm_compute. reflexivity.
+  unfold get_start_value_zero_based.
+  destruct (get_num_fmt_attributes (to_numtable v) numId ilvl) as [na|] eqn:Ea; [|lia].
+  destruct (num_attrs_in v numId ilvl na Ea) as (n & lvls & a & I1 & I2 & ->).
+  destruct a as [f st]. cbn [fst snd na_fmt na_start]. destruct st as [s|]; [|lia].
+  pose proof (Hst n lvls (f, Some s) s I1 I2 eq_refl). lia.
 Qed.
 
 (* ================================================================== *)
@@ -297,9 +292,9 @@ Qed.
 #[local] Hint Resolve nme_apply_numfn : nme.
 Lemma nme_get_bullet tbl fmt number : nme (get_bullet tbl fmt number).
 Proof.
-  unfold get_bullet. destruct fmt as [[n|] [l|]]; try apply nme_ok.
-  destruct number as [z|]; [|apply nme_ok]. cbv zeta.
-  apply nme_bind; [apply nme_apply_numfn|]. intros b _.
+  destruct fmt as [[n|] [l|]]; try apply nme_ok.
+  destruct number as [z|]; [|apply nme_ok]. rewrite get_bullet_eq.
+  apply nme_bind; [apply nme_total, render_num_total|]. intros b _. cbv zeta.
   apply nme_bind; [apply nme_of_opt; discriminate|]. intros. apply nme_ok.
 Qed.
 #[local] Hint Resolve nme_get_bullet : nme.
@@ -409,7 +404,7 @@ Lemma good2_bind {A B} (Q : A -> Prop) (R : B -> Prop) (r : res A) (k : A -> res
 Proof.
   destruct r as [a|e]; cbn [bind]; intros [H N] K.
   - apply K. exact H.
-  - split; [exact H|exact N].
+  - split; [exact H|]. intro E. apply N. injection E as ->. reflexivity.
 Qed.
 Lemma good2_ok {A} (Q : A -> Prop) a : Q a -> good2 Q (Ok a).
 Proof. intro H. split; [exact H|apply nme_ok]. Qed.
@@ -420,7 +415,7 @@ Lemma good2_any {A} (r : res A) : nce r -> nme r -> good2 any r.
 Proof. intros H1 H2. split; assumption. Qed.
 
 Lemma nme_as_list n : nme (as_list n).
-Proof. destruct n; nme_tac. Qed.
+Proof. destruct n; cbn [as_list]; nme_tac. Qed.
 #[local] Hint Resolve nme_as_list : nme.
 Lemma nme_get_row root ti ri : nme (get_row root ti ri).
 Proof. unfold get_row. nme_tac. Qed.
@@ -523,6 +518,772 @@ Qed.
 Lemma close_table_cell_nme v e ks s : Inv s -> nme (close_table_cell v e ks s).
 Proof. intro H. exact (proj2 (close_table_cell_good2 v e ks s H)). Qed.
 
+(* ---- open_tag / close_tag ---- *)
+Ltac model_absurd :=
+  exfalso;
+  match goal with
+  | E : ?r = Err ModelError |- _ =>
+      let N := fresh "N" in assert (N : nme r) by nme_tac; exact (N E)
+  end.
+
+Ltac inv_side2 := first [assumption | apply set_counters_inv; assumption
+                         | apply set_open_inv; assumption
+                         | apply queue_run_for_next_paragraph_inv; assumption].
+Ltac nme_prim :=
+  first [ apply upd_open_runs_nme | apply commence_paragraph_nme
+        | apply start_comment_range_nme | apply end_comment_range_nme ]; inv_side2.
+
+Ltac on_step :=
+  match goal with
+  | |- nme (if ?c then _ else _) => destruct c
+  | |- nme (match ?x with _ => _ end) => destruct x eqn:?
+  | |- nme (Ok _) => apply nme_ok
+  | |- nme (Err ModelError) => model_absurd
+  | |- nme (Err _) => apply nme_err; discriminate
+  | |- nme (bind _ _) =>
+      apply nme_bind; [first [nme_prim | solve [nme_tac]] | intros ? ?]
+  end.
+
+Lemma insert_text_as_new_run_nme v ts s : Inv s -> nme (insert_text_as_new_run v ts s).
+Proof. apply upd_open_runs_nme. Qed.
+
+Lemma note_label_nme v kind e s : Inv s -> nme (note_label v kind e s).
+Proof. intro H. unfold note_label. repeat on_step. Qed.
+
+Lemma note_ref_nme v kind e s : Inv s -> nme (note_ref v kind e s).
+Proof. intro H. unfold note_ref, insert_text_as_new_run. repeat on_step. Qed.
+
+Lemma image_ref_nme v rid s : nme rid -> Inv s -> nme (image_ref v rid s).
+Proof.
+  intros N H. unfold image_ref, insert_text_as_new_run. destruct rid as [id|x].
+  - repeat on_step.
+  - destruct x; try (apply nme_err; discriminate); [apply nme_ok|]. exfalso. apply N. reflexivity.
+Qed.
+
+Lemma open_tag_nme v path t e ks body s : Inv s -> nme (open_tag v path t e ks body s).
+Proof.
+  intro H. unfold open_tag. cbv zeta.
+  destruct (str_eqb (e_ptag e) tag_PARAGRAPH).
+  { apply nme_bind; [apply commence_paragraph_nme, H|]. intros s1 E1.
+    pose proof (commence_paragraph_inv _ _ _ _ H E1) as I1.
+    destruct (get_par_number _ _ _) as [cs number].
+    apply nme_bind; [apply nme_get_bullet|]. intros bl _.
+    apply nme_bind; [apply insert_text_as_new_run_nme, set_counters_inv, I1|]. intros s2 E2.
+    apply upd_open_runs_nonempty in E2. destruct (c_open s2); [congruence|apply nme_ok]. }
+  repeat match goal with
+         | |- nme (if ?c then _ else _) => destruct c
+         end;
+    try (apply note_label_nme; exact H);
+    try (apply note_ref_nme; exact H);
+    try (apply image_ref_nme; [nme_tac|exact H]);
+    unfold commence_run, add_text_into_open_run, add_code_into_open_run, add_toks,
+      insert_text_as_new_run; repeat on_step.
+Qed.
+
+Lemma close_tag_nme v e ks s : Inv s -> nme (close_tag v e ks s).
+Proof.
+  intro H. unfold close_tag. cbv zeta.
+  destruct (str_eqb (e_ptag e) tag_PARAGRAPH); [apply conclude_paragraph_nme; exact H|].
+  destruct (str_eqb (e_ptag e) tag_RUN); [apply upd_open_runs_nme; exact H|].
+  destruct (str_eqb (e_ptag e) tag_TABLE_CELL); [apply close_table_cell_nme; exact H|].
+  apply nme_ok.
+Qed.
+
+Lemma finish_nme v s : Inv s -> nme (finish v s).
+Proof.
+  intro H. unfold finish. apply nme_bind.
+  { destruct (c_queued s); [apply nme_ok|apply commence_paragraph_nme, H]. }
+  intros s1 E. apply conclude_paragraph_nme.
+  destruct (c_queued s); [injection E as <-; exact H|exact (commence_paragraph_inv _ _ _ _ H E)].
+Qed.
+
+(* ---- the walk ---- *)
+Definition walk_nme_at (v : env) (t : anode) : Prop :=
+  forall path s, Inv s -> nme (walk v path t s).
+
+Lemma below_loop_nme v path ks :
+  Forall (walk_nme_at v) ks -> forall i, nme (below_loop v path ks i).
+Proof.
+  induction 1 as [|k r Hk Hr IH]; intro i; cbn [below_loop].
+  - apply nme_ok.
+  - apply nme_bind; [apply Hk, init_inv|]. intros sk Ek.
+    pose proof (walk_inv _ _ _ _ _ init_inv Ek) as Ik.
+    apply nme_bind; [apply finish_nme, Ik|]. intros sk' _.
+    apply nme_bind; [apply nme_tree_par_toks|]. intros ps _.
+    apply nme_bind; [apply IH|]. intros. apply nme_ok.
+Qed.
+
+Lemma kids_loop_nme v path ks :
+  Forall (walk_nme_at v) ks -> forall i s, Inv s -> nme (kids_loop v path ks i s).
+Proof.
+  induction 1 as [|k r Hk Hr IH]; intros i s Hs; cbn [kids_loop].
+  - apply nme_ok.
+  - apply nme_bind; [apply Hk, Hs|]. intros s' E. apply IH.
+    exact (walk_inv _ _ _ _ _ Hs E).
+Qed.
+
+Lemma kids_loop_inv v path : forall ks i s s',
+  Inv s -> kids_loop v path ks i s = Ok s' -> Inv s'.
+Proof.
+  induction ks as [|k r IH]; intros i s s' Hs H; cbn [kids_loop] in H.
+  - injection H as <-. exact Hs.
+  - bind_inv H as s1 E. exact (IH _ _ _ (walk_inv _ _ _ _ _ Hs E) H).
+Qed.
+
+Lemma walk_nme v : forall t, walk_nme_at v t.
+Proof.
+  apply ShapeFacts.anode_ind'.
+  - intros tl path s Hs. apply nme_ok.
+  - intros e ks HF path s Hs. rewrite walk_AE. cbv zeta.
+    apply nme_bind; [apply set_caret_nme; [apply elem_depth_range|exact Hs]|]. intros s1 E1.
+    assert (I1 : Inv s1).
+    { exact (good_ok_inv _ _ _ (set_caret_good _ _ _ (elem_depth_range _) Hs) E1). }
+    apply nme_bind.
+    { destruct (str_eqb (e_ptag e) tag_HYPERLINK); [apply below_loop_nme; exact HF|apply nme_ok]. }
+    intros body _.
+    apply nme_bind; [apply open_tag_nme, I1|]. intros [s2 rec] E2.
+    pose proof (open_tag_inv _ _ _ _ _ _ _ _ _ I1 E2) as I2.
+    apply nme_bind.
+    { destruct rec; [apply kids_loop_nme; assumption|apply nme_ok]. }
+    intros s3 E3.
+    assert (I3 : Inv s3).
+    { destruct rec; [exact (kids_loop_inv _ _ _ _ _ _ I2 E3)|injection E3 as <-; exact I2]. }
+    apply nme_bind; [apply close_tag_nme, I3|]. intros s4 E4.
+    apply set_caret_nme; [apply elem_depth_range|exact (close_tag_inv _ _ _ _ _ I3 E4)].
+Qed.
+
+Lemma walk_no_model_error : forall v t path s, Inv s -> walk v path t s <> Err ModelError.
+Proof. intros v t path s H. exact (walk_nme v t path s H). Qed.
+
+Lemma collect_no_model_error : forall v path t, collect_from v path t <> Err ModelError.
+Proof.
+  intros v path t. unfold collect_from.
+  change (nme (s <- walk v path t init_cst ;; finish v s)).
+  apply nme_bind; [apply walk_nme, init_inv|]. intros s E.
+  apply finish_nme. exact (walk_inv _ _ _ _ _ init_inv E).
+Qed.
+
+Lemma no_internal_errors : forall v path t,
+  collect_from v path t <> Err ModelError /\ collect_from v path t <> Err CaretDepthError.
+Proof.
+  intros v path t. split; [apply collect_no_model_error|apply collect_no_caret_error].
+Qed.
+
+(* ================================================================== *)
+(* T2: totality                                                         *)
+(* ================================================================== *)
+(* the style invariant: every run style and paragraph html style stored in
+   the state (tree, open paragraphs, queued runs) has a first word in each
+   of its strings *)
+Definition run_sty (r : run) : Prop := style_ok (r_style r).
+Definition par_sty (p : par) : Prop := style_ok (p_hstyle p) /\ Forall run_sty (p_runs p).
+Inductive node_sty : node -> Prop :=
+| sty_NP p : par_sty p -> node_sty (NP p)
+| sty_NL l : Forall node_sty l -> node_sty (NL l).
+Definition runs_style_ok (s : cst) : Prop :=
+  Forall node_sty (c_tree s) /\ Forall par_sty (c_open s) /\ Forall run_sty (c_queued s).
+Definition J (s : cst) : Prop := Inv s /\ runs_style_ok s.
+
+Lemma init_J : J init_cst.
+Proof. split; [exact init_inv|]. repeat split; constructor. Qed.
+
+Lemma style_ok_nil : style_ok [].
+Proof. constructor. Qed.
+
+(* ---- rendering is total on styled paragraphs ---- *)
+Lemma close_toks_total st : style_ok st -> exists r, close_toks st = Ok r.
+Proof.
+  intro H. unfold close_toks.
+  destruct (mapM_total first_word (rev st)) as [ws E].
+  { apply Forall_rev'. eapply Forall_impl; [|exact H]. intros x Hx. cbv beta in Hx. unfold first_word.
+    destruct (words x); [exfalso; apply Hx; reflexivity|eexists; reflexivity]. }
+  rewrite E. cbn [bind]. eexists; reflexivity.
+Qed.
+
+Lemma run_toks_total r : run_sty r -> exists x, run_toks r = Ok x.
+Proof.
+  intro H. unfold run_toks. destruct (r_toks r); [eexists; reflexivity|].
+  destruct (close_toks_total _ H) as [cl E]. rewrite E. cbn [bind]. eexists; reflexivity.
+Qed.
+
+Lemma par_run_toks_total p : par_sty p -> exists x, par_run_toks p = Ok x.
+Proof.
+  intros [Hh Hr]. unfold par_run_toks.
+  destruct (mapM_total run_toks (p_runs p)) as [rs E].
+  { eapply Forall_impl; [|exact Hr]. intros r. apply run_toks_total. }
+  rewrite E. cbn [bind]. cbv zeta. destruct (p_hstyle p) eqn:Eh; [eexists; reflexivity|].
+  destruct (close_toks_total _ Hh) as [cl E']. rewrite E'. cbn [bind].
+  eexists; reflexivity.
+Qed.
+
+Lemma par_run_strings_total h p : par_sty p -> exists x, par_run_strings h p = Ok x.
+Proof.
+  intro H. unfold par_run_strings. destruct (par_run_toks_total p H) as [x E]. rewrite E.
+  cbn [bind]. eexists; reflexivity.
+Qed.
+
+Lemma pars_at_total : forall dd k l, (dd + k = 5)%nat -> (1 <= dd)%nat ->
+  forallb (shapeb k) l = true -> exists ps, pars_at dd l = Ok ps.
+Proof.
+  induction dd as [|dd IH]; intros k l Hk Hd Hl; [lia|].
+  destruct dd as [|d'].
+  - cbn [pars_at]. apply mapM_total. apply Forall_rev'. apply Forall_forall. intros n Hn.
+    pose proof (proj1 (forallb_forall _ _) Hl n Hn) as Hs.
+    destruct n as [l'|p]; [|eexists; reflexivity].
+    rewrite shapeb_NL in Hs. apply andb_true_iff in Hs. destruct Hs as [Hlt _].
+    apply Nat.ltb_lt in Hlt. lia.
+  - rewrite pars_at_SS.
+    match goal with |- context [mapM ?f (rev l)] => destruct (mapM_total f (rev l)) as [xs E] end.
+    { apply Forall_rev'. apply Forall_forall. intros n Hn.
+      pose proof (proj1 (forallb_forall _ _) Hl n Hn) as Hs.
+      destruct n as [l'|p].
+      - rewrite shapeb_NL in Hs. apply andb_true_iff in Hs. destruct Hs as [_ Hs].
+        apply (IH (S k) l'); [lia|lia|exact Hs].
+      - cbn [shapeb] in Hs. apply Nat.eqb_eq in Hs. lia. }
+    rewrite E. cbn [bind]. eexists; reflexivity.
+Qed.
+
+Lemma pars_at_sty : forall dd l ps, pars_at dd l = Ok ps -> Forall node_sty l -> Forall par_sty ps.
+Proof.
+  induction dd as [|dd IH]; intros l ps H Hl; [discriminate H|].
+  destruct dd as [|d'].
+  - cbn [pars_at] in H. eapply mapM_Forall; [|exact H|apply Forall_rev'; exact Hl].
+    intros x y Hx Hy. destruct x as [l'|p]; [discriminate Hy|]. injection Hy as <-.
+    inversion Hx; assumption.
+  - rewrite pars_at_SS in H. bind_inv H as xs E. injection H as <-.
+    apply Forall_concat'. eapply mapM_Forall; [|exact E|apply Forall_rev'; exact Hl].
+    intros x y Hx Hy. destruct x as [l'|p]; [|discriminate Hy].
+    apply (IH l' y Hy). inversion Hx; assumption.
+Qed.
+
+Lemma tree_par_toks_total : forall l, tree_ok l -> Forall node_sty l ->
+  exists r, tree_par_toks l = Ok r.
+Proof.
+  intros l Ht Hs. unfold tree_par_toks.
+  destruct (pars_at_total 4%nat 1%nat l eq_refl) as [ps E]; [lia|exact Ht|].
+  rewrite E. cbn [bind].
+  destruct (mapM_total par_run_toks ps) as [rs E'].
+  { eapply Forall_impl; [|exact (pars_at_sty _ _ _ E Hs)]. intro p. apply par_run_toks_total. }
+  rewrite E'. cbn [bind]. eexists; reflexivity.
+Qed.
+
+(* ---- the caret ---- *)
+Lemma spine_app_sty : forall d x l l',
+  spine_app d x l = Ok l' -> node_sty x -> Forall node_sty l -> Forall node_sty l'.
+Proof.
+  induction d as [|d IH]; intros x l l' H Hx Hl; [discriminate H|].
+  destruct d as [|d'].
+  - cbn in H. injection H as <-. constructor; assumption.
+  - destruct l as [|[l0|q] rest]; try discriminate H.
+    rewrite spine_app_SS in H. bind_inv H as l0' E. injection H as <-.
+    inversion Hl as [|? ? H0 Hr]; subst. inversion H0 as [|? Hl0]; subst.
+    constructor; [|exact Hr]. constructor. exact (IH _ _ _ E Hx Hl0).
+Qed.
+
+Lemma set_caret_go_sty : forall fuel d name s s',
+  set_caret_go fuel d name s = Ok s' -> Forall node_sty (c_tree s) -> Forall node_sty (c_tree s').
+Proof.
+  induction fuel as [|f IH]; intros d name s s' H Hs; [discriminate H|].
+  cbn [set_caret_go] in H.
+  destruct (Nat.eqb (c_depth s) d).
+  - bind_inv H as l El. injection H as <-. exact Hs.
+  - destruct (Nat.ltb (c_depth s) d).
+    + bind_inv H as s1 E. apply (IH _ _ _ _ H).
+      unfold drop_caret in E. destruct (Nat.leb par_depth (c_depth s)); [discriminate E|].
+      bind_inv E as t Et. injection E as <-. cbn [c_tree set_depth set_tree].
+      apply (spine_app_sty _ _ _ _ Et); [constructor; constructor|exact Hs].
+    + bind_inv H as l El. bind_inv H as s1 E. apply (IH _ _ _ _ H).
+      unfold raise_caret in E. destruct (Nat.leb _ 1); [discriminate E|].
+      injection E as <-. exact Hs.
+Qed.
+
+Lemma set_caret_J : forall d name s, (1 <= d <= 4)%nat -> J s ->
+  exists s', set_caret (Some d) name s = Ok s' /\ J s' /\ c_depth s' = d
+             /\ c_open s' = c_open s /\ c_queued s' = c_queued s.
+Proof.
+  intros d name s Hd [HI (Ht & Ho & Hq)].
+  destruct (set_caret_inv d name s Hd HI) as (s' & E & I' & D' & O' & Q').
+  exists s'. split; [exact E|]. split; [|auto].
+  split; [exact I'|]. split; [exact (set_caret_go_sty _ _ _ _ _ E Ht)|].
+  rewrite O', Q'. auto.
+Qed.
+
+Lemma set_caret_opt_J : forall od name s,
+  (forall d, od = Some d -> (1 <= d <= 4)%nat) -> J s ->
+  exists s', set_caret od name s = Ok s' /\ J s'.
+Proof.
+  intros [d|] name s Hd HJ.
+  - destruct (set_caret_J d name s (Hd d eq_refl) HJ) as (s' & E & J' & _). eauto.
+  - exists s. split; [reflexivity|exact HJ].
+Qed.
+
+(* ---- paragraphs and runs ---- *)
+Definition elem_ok (v : env) (elem : option (einfo * list anode * list nat)) : Prop :=
+  match elem with
+  | None => True
+  | Some (e, ks, _) =>
+      exists hs ps, get_paragraph_formatting e ks (env_x2h v) = Ok hs /\ style_ok hs
+                    /\ get_pStyle e ks = Ok ps
+  end.
+
+Lemma commence_paragraph_J v elem s : elem_ok v elem -> J s ->
+  exists s', commence_paragraph v elem s = Ok s' /\ J s'.
+Proof.
+  intros He HJ. unfold commence_paragraph.
+  destruct (set_caret_J 4%nat
+              (match elem with Some (e, _, _) => Some (e_local e) | None => None end) s)
+    as (s1 & E & [I1 (T1 & O1 & Q1)] & _); [lia|exact HJ|].
+  unfold par_depth. rewrite E. cbn [bind].
+  assert (Hfin : forall hs ps pe, style_ok hs ->
+    J (set_open ({| p_elem := pe; p_copy := false; p_hstyle := hs; p_style := ps;
+                    p_lineage := c_lineage s1; p_runs := c_queued s1;
+                    p_listpos := (None, []) |} :: c_open s1) (set_queued [] s1))).
+  { intros hs ps pe Hhs. split; [exact I1|]. split; [exact T1|].
+    split; [|constructor]. constructor; [|exact O1]. split; [exact Hhs|exact Q1]. }
+  destruct elem as [[[e ks] pth]|].
+  - destruct He as (hs & ps & -> & Hhs & ->). cbn [bind]. eexists. split; [reflexivity|].
+    apply Hfin. exact Hhs.
+  - cbn [bind]. eexists. split; [reflexivity|]. apply Hfin. constructor.
+Qed.
+
+Lemma conclude_paragraph_J s : J s -> exists s', conclude_paragraph s = Ok s' /\ J s'.
+Proof.
+  intros HJ. unfold conclude_paragraph.
+  destruct (c_open s) as [|p rest] eqn:Eo; [exists s; split; [reflexivity|exact HJ]|].
+  destruct (set_caret_J 4%nat None (set_open rest s)) as (s1 & E & [I1 (T1 & O1 & Q1)] & D1 & _);
+    [lia| |].
+  { destruct HJ as [HI (Ht & Ho & Hq)]. split; [exact HI|]. split; [exact Ht|].
+    split; [|exact Hq]. rewrite Eo in Ho. inversion Ho; assumption. }
+  unfold par_depth. rewrite E. cbn [bind].
+  destruct I1 as (T & R & S). rewrite D1 in S.
+  destruct (spine_app_ok 4%nat 1%nat (NP p) (c_tree s1) S T) as (l' & E' & F & S1 & _);
+    [reflexivity|].
+  rewrite E'. cbn [bind]. eexists. split; [reflexivity|].
+  split.
+  - unfold Inv. cbn [c_tree c_depth set_tree]. rewrite D1. split; [exact F|]. split; [lia|exact S1].
+  - split; [|split; [exact O1|exact Q1]]. cbn [c_tree set_tree].
+    apply (spine_app_sty _ _ _ _ E'); [|exact T1]. constructor.
+    destruct HJ as [_ (_ & Ho & _)]. rewrite Eo in Ho. inversion Ho; assumption.
+Qed.
+
+Lemma upd_open_runs_J v f s :
+  (forall rs, Forall run_sty rs -> Forall run_sty (f rs)) -> J s ->
+  exists s', upd_open_runs v f s = Ok s' /\ J s'.
+Proof.
+  intros Hf HJ. unfold upd_open_runs.
+  assert (He : exists s1, ensure_par v s = Ok s1 /\ J s1).
+  { unfold ensure_par. destruct (c_open s); [apply commence_paragraph_J; [exact I|exact HJ]|].
+    exists s. split; [reflexivity|exact HJ]. }
+  destruct He as (s1 & E & [I1 (T1 & O1 & Q1)]). rewrite E. cbn [bind].
+  apply ensure_par_open in E. destruct (c_open s1) as [|p rest] eqn:Eo; [congruence|].
+  eexists. split; [reflexivity|]. split; [exact I1|]. split; [exact T1|]. split; [|exact Q1].
+  cbn [c_open set_open]. inversion O1 as [|? ? [Hh Hr] Hrest]; subst.
+  constructor; [|exact Hrest]. split; [exact Hh|]. cbn [p_runs with_runs]. apply Hf. exact Hr.
+Qed.
+
+Lemma run_sty_empty ts : run_sty {| r_style := []; r_toks := ts |}.
+Proof. constructor. Qed.
+
+Lemma commence_run_J v st s : style_ok st -> J s ->
+  exists s', commence_run v st s = Ok s' /\ J s'.
+Proof.
+  intros Hst HJ. apply upd_open_runs_J; [|exact HJ]. intros rs Hrs.
+  apply Forall_app. split; [exact Hrs|]. constructor; [exact Hst|constructor].
+Qed.
+
+Lemma ensure_run_sty rs : Forall run_sty rs -> Forall run_sty (ensure_run rs).
+Proof. intro H. destruct rs; [constructor; [apply run_sty_empty|constructor]|exact H]. Qed.
+
+Lemma upd_last_sty (f : run -> run) : (forall r, run_sty r -> run_sty (f r)) ->
+  forall rs, Forall run_sty rs -> Forall run_sty (upd_last f rs).
+Proof.
+  intros Hf. induction rs as [|x r IH]; intro H; [constructor|].
+  inversion H as [|? ? Hx Hr]; subst. destruct r as [|y r'].
+  - constructor; [apply Hf; exact Hx|constructor].
+  - change (upd_last f (x :: y :: r')) with (x :: upd_last f (y :: r')).
+    constructor; [exact Hx|apply IH; exact Hr].
+Qed.
+
+Lemma add_toks_J v ts s : J s -> exists s', add_toks v ts s = Ok s' /\ J s'.
+Proof.
+  intro HJ. apply upd_open_runs_J; [|exact HJ]. intros rs Hrs.
+  apply upd_last_sty; [intros r Hr; exact Hr|apply ensure_run_sty; exact Hrs].
+Qed.
+
+Lemma last_opt_In {A} : forall (l : list A) x, last_opt l = Some x -> In x l.
+Proof.
+  induction l as [|y r IH]; intros x H; [discriminate H|].
+  destruct r as [|z r']; [injection H as <-; left; reflexivity|].
+  right. apply IH. exact H.
+Qed.
+
+Lemma insert_J v ts s : J s -> exists s', insert_text_as_new_run v ts s = Ok s' /\ J s'.
+Proof.
+  intro HJ. apply upd_open_runs_J; [|exact HJ]. intros rs Hrs. cbv zeta.
+  pose proof (ensure_run_sty rs Hrs) as He.
+  apply Forall_app. split; [exact He|]. constructor; [apply run_sty_empty|].
+  constructor; [|constructor]. unfold run_sty. cbn [r_style].
+  destruct (last_opt (ensure_run rs)) as [r|] eqn:El; [|constructor].
+  apply last_opt_In in El. exact (proj1 (Forall_forall _ _) He r El).
+Qed.
+
+Lemma queue_J ts s : J s -> J (queue_run_for_next_paragraph ts s).
+Proof.
+  intros [HI (Ht & Ho & Hq)]. split; [exact HI|]. split; [exact Ht|]. split; [exact Ho|].
+  cbn [c_queued queue_run_for_next_paragraph set_queued]. apply Forall_app. split; [exact Hq|].
+  constructor; [apply run_sty_empty|constructor].
+Qed.
+
+Lemma set_counters_J cs s : J s -> J (set_counters cs s).
+Proof. intro H. exact H. Qed.
+
+Lemma finish_J v s : J s -> exists s', finish v s = Ok s' /\ J s'.
+Proof.
+  intro HJ. unfold finish.
+  assert (H1 : exists s1, match c_queued s with [] => Ok s | _ :: _ => commence_paragraph v None s end
+                          = Ok s1 /\ J s1).
+  { destruct (c_queued s); [exists s; split; [reflexivity|exact HJ]|].
+    apply commence_paragraph_J; [exact I|exact HJ]. }
+  destruct H1 as (s1 & E & J1). rewrite E. cbn [bind]. apply conclude_paragraph_J. exact J1.
+Qed.
+
+(* ---- open_tag ---- *)
+Lemma ret_J (r : res cst) (b : bool) : (exists s', r = Ok s' /\ J s') ->
+  exists s' b', (s' <- r ;; Ok (s', b)) = Ok (s', b') /\ J s'.
+Proof. intros (s' & -> & H). exists s', b. split; [reflexivity|exact H]. Qed.
+
+Lemma id_J s (b : bool) : J s -> exists s' b', Ok (s, b) = Ok (s', b') /\ J s'.
+Proof. intro H. exists s, b. split; [reflexivity|exact H]. Qed.
+
+Lemma attr_w_err e n x : attr_w e n = Err x -> x = KeyError.
+Proof. unfold attr_w. destruct (e_wuri e); [discriminate|]. intro H. injection H as <-. reflexivity. Qed.
+Lemma attr_r_req_err e n x : attr_r_req e n = Err x -> x = KeyError.
+Proof.
+  unfold attr_r_req, attr_r. destruct (e_ruri e); cbn [bind].
+  - destruct (alookup _ _); cbn [of_opt]; [discriminate|]. intro H. injection H as <-. reflexivity.
+  - intro H. injection H as <-. reflexivity.
+Qed.
+
+Lemma image_ref_J v e n s : J s ->
+  exists s' b, image_ref v (attr_r_req e n) s = Ok (s', b) /\ J s'.
+Proof.
+  intro HJ. unfold image_ref. destruct (attr_r_req e n) as [id|x] eqn:E.
+  - destruct (dict_get id (env_rels v)); [|apply id_J; exact HJ].
+    apply ret_J, insert_J, HJ.
+  - rewrite (attr_r_req_err _ _ _ E). apply id_J. exact HJ.
+Qed.
+
+Lemma open_tag_J v path e ks body s :
+  local_ok' v (AE e ks) = true -> J s ->
+  exists s' b, open_tag v path (AE e ks) e ks body s = Ok (s', b) /\ J s'.
+Proof.
+  intros L HJ. unfold local_ok', local_ok in L. cbv zeta in L.
+  apply andb_true_iff in L. destruct L as [L LB].
+  apply andb_true_iff in LB. destruct LB as [LB1 LB2].
+  apply andb_true_iff in L. destruct L as [L L9].
+  apply andb_true_iff in L. destruct L as [L L8].
+  apply andb_true_iff in L. destruct L as [L L7].
+  apply andb_true_iff in L. destruct L as [L L6].
+  apply andb_true_iff in L. destruct L as [L L5].
+  apply andb_true_iff in L. destruct L as [L L4].
+  apply andb_true_iff in L. destruct L as [L L3].
+  apply andb_true_iff in L. destruct L as [L1 L2].
+  unfold open_tag. cbv zeta.
+  destruct (str_eqb (e_ptag e) tag_PARAGRAPH) eqn:T1.
+  { clear L2 L3 L4 L5 L6 L7 L8 L9 LB2.
+    destruct (get_paragraph_formatting e ks (env_x2h v)) as [hs|] eqn:Ehs;
+      cbn [is_ok andb fmt_okb] in L1, LB1; [|discriminate L1].
+    destruct (get_pStyle e ks) as [pst|] eqn:Eps; cbn [is_ok andb] in L1; [|discriminate L1].
+    apply style_okb_ok in LB1.
+    destruct (commence_paragraph_J v (Some (e, ks, path)) s) as (s1 & E1 & J1);
+      [exists hs, pst; rewrite Ehs, Eps; auto|exact HJ|].
+    rewrite E1. cbn [bind].
+    destruct (get_par_number (to_numtable v) (c_counters s1) (get_bullet_fmt (AE e ks)))
+      as [cs number] eqn:Epn.
+    destruct (get_bullet_total_strong (to_numtable v) (get_bullet_fmt (AE e ks)) number)
+      as [bl Ebl].
+    { destruct (get_bullet_fmt (AE e ks)) as [[a|] [l|]]; try exact I.
+      destruct (int_of_str l); [discriminate|discriminate L1]. }
+    rewrite Ebl. cbn [bind].
+    destruct (insert_J v (raw bl) (set_counters cs s1)) as (s2 & E2 & J2);
+      [apply set_counters_J; exact J1|].
+    rewrite E2. cbn [bind]. apply upd_open_runs_nonempty in E2.
+    destruct (c_open s2) as [|p rest] eqn:Eo; [congruence|].
+    eexists; eexists; split; [reflexivity|].
+    destruct J2 as [I2 (T2 & O2 & Q2)]. split; [exact I2|]. split; [exact T2|]. split; [|exact Q2].
+    cbn [c_open set_open]. rewrite Eo in O2. inversion O2 as [|? ? Hp Hrest]; subst.
+    constructor; [exact Hp|exact Hrest]. }
+  clear L1 LB1.
+  destruct (str_eqb (e_ptag e) tag_RUN) eqn:T2.
+  { destruct (get_run_formatting e ks (env_x2h v)) as [st|];
+      cbn [is_ok fmt_okb] in L2, LB2; [|discriminate L2].
+    cbn [bind]. apply ret_J, commence_run_J; [apply style_okb_ok; exact LB2|exact HJ]. }
+  clear L2 LB2.
+  destruct (str_eqb (e_ptag e) tag_COMMENT_RANGE_END) eqn:T3.
+  { rewrite orb_true_r in L9. discriminate L9. }
+  destruct (str_eqb (e_ptag e) tag_COMMENT_RANGE_START) eqn:T4.
+  { discriminate L9. }
+  clear L9.
+  destruct (str_eqb (e_ptag e) tag_TEXT || str_eqb (e_ptag e) tag_TEXT_MATH)%bool.
+  { apply ret_J, add_toks_J, HJ. }
+  destruct (str_eqb (e_ptag e) tag_MATH).
+  { apply ret_J, insert_J, HJ. }
+  destruct (str_eqb (e_ptag e) tag_BR).
+  { apply ret_J, add_toks_J, HJ. }
+  destruct (str_eqb (e_ptag e) tag_SYM).
+  { destruct (attr_w e s_font) as [font|]; cbn [is_ok andb] in L3; [|discriminate L3].
+    destruct (attr_w e s_char) as [chr|]; cbn [is_ok] in L3; [|discriminate L3].
+    cbn [bind]. destruct (ostr chr); [apply id_J; exact HJ|]. apply ret_J, add_toks_J, HJ. }
+  clear L3.
+  assert (Hnote : forall kind,
+     match attr_w e s_type with
+     | Ok ty => contains s_separator (lower (ostr ty)) || is_ok (attr_w_req e s_id)
+     | Err _ => false
+     end = true ->
+     exists s' b, note_label v kind e s = Ok (s', b) /\ J s').
+  { intros kind Hn. unfold note_label. destruct (attr_w e s_type) as [ty|]; [|discriminate Hn].
+    cbn [bind]. destruct (contains s_separator (lower (ostr ty))); [apply id_J; exact HJ|].
+    cbn [orb] in Hn. destruct (attr_w_req e s_id) as [id|]; [|discriminate Hn].
+    cbn [bind]. apply id_J. apply queue_J. exact HJ. }
+  destruct (str_eqb (e_ptag e) tag_FOOTNOTE) eqn:T5.
+  { apply Hnote. exact L4. }
+  destruct (str_eqb (e_ptag e) tag_ENDNOTE) eqn:T6.
+  { apply Hnote. exact L4. }
+  clear L4 Hnote.
+  destruct (str_eqb (e_ptag e) tag_HYPERLINK).
+  { assert (Hplain : exists s' b, (s' <- insert_text_as_new_run v body s ;; Ok (s', false))
+                                  = Ok (s', b) /\ J s') by (apply ret_J, insert_J, HJ).
+    destruct (attr_r_req e s_id) as [rid|x] eqn:Er.
+    - destruct (dict_get rid (env_rels v)) as [link|]; [|exact Hplain].
+      destruct (attr_w e s_anchor) as [anchor|x] eqn:Ea.
+      + apply ret_J, insert_J, HJ.
+      + rewrite (attr_w_err _ _ _ Ea). exact Hplain.
+    - rewrite (attr_r_req_err _ _ _ Er). exact Hplain. }
+  destruct (str_eqb (e_ptag e) tag_FORM_CHECKBOX).
+  { destruct (get_checkBox_entry e ks) as [x|]; [|discriminate L6]. cbn [bind].
+    apply ret_J, insert_J, HJ. }
+  destruct (str_eqb (e_ptag e) tag_FORM_DDLIST).
+  { destruct (get_ddList_entry e ks) as [x|]; [|discriminate L7]. cbn [bind].
+    apply ret_J, insert_J, HJ. }
+  assert (Href : forall kind, is_ok (attr_w_req e s_id) = true ->
+     exists s' b, note_ref v kind e s = Ok (s', b) /\ J s').
+  { intros kind Hn. unfold note_ref. destruct (attr_w_req e s_id) as [id|]; [|discriminate Hn].
+    cbn [bind]. apply ret_J, insert_J, HJ. }
+  destruct (str_eqb (e_ptag e) tag_FOOTNOTE_REFERENCE) eqn:T7.
+  { apply Href. exact L5. }
+  destruct (str_eqb (e_ptag e) tag_ENDNOTE_REFERENCE) eqn:T8.
+  { apply Href. exact L5. }
+  destruct (str_eqb (e_ptag e) tag_IMAGE).
+  { apply image_ref_J, HJ. }
+  destruct (str_eqb (e_ptag e) tag_IMAGE_ALT).
+  { destruct (attr_plain e s_descr); [apply ret_J, insert_J, HJ|apply id_J, HJ]. }
+  destruct (str_eqb (e_ptag e) tag_IMAGEDATA).
+  { apply image_ref_J, HJ. }
+  destruct (str_eqb (e_ptag e) tag_TAB).
+  { apply ret_J, insert_J, HJ. }
+  apply id_J, HJ.
+Qed.
+
+Lemma close_tag_J v e ks s : local_ok' v (AE e ks) = true -> J s ->
+  exists s', close_tag v e ks s = Ok s' /\ J s'.
+Proof.
+  intros L HJ. unfold local_ok', local_ok in L. cbv zeta in L.
+  apply andb_true_iff in L. destruct L as [L _].
+  apply andb_true_iff in L. destruct L as [L _].
+  apply andb_true_iff in L. destruct L as [_ L8].
+  unfold close_tag. cbv zeta.
+  destruct (str_eqb (e_ptag e) tag_PARAGRAPH); [apply conclude_paragraph_J, HJ|].
+  destruct (str_eqb (e_ptag e) tag_RUN); [apply commence_run_J; [constructor|exact HJ]|].
+  destruct (str_eqb (e_ptag e) tag_TABLE_CELL); [discriminate L8|].
+  exists s. split; [reflexivity|exact HJ].
+Qed.
+
+(* ---- the walk ---- *)
+Definition walk_J_at (v : env) (t : anode) : Prop :=
+  forall path s, all_local_ok' v t = true -> J s -> exists s', walk v path t s = Ok s' /\ J s'.
+
+Lemma below_loop_total v path ks :
+  Forall (walk_J_at v) ks -> forallb (all_local_ok' v) ks = true ->
+  forall i, exists body, below_loop v path ks i = Ok body.
+Proof.
+  induction 1 as [|k r Hk Hr IH]; intros Hl i; cbn [below_loop].
+  - eexists; reflexivity.
+  - cbn [forallb] in Hl. apply andb_true_iff in Hl. destruct Hl as [Hlk Hlr].
+    destruct (Hk (i :: path) init_cst Hlk init_J) as (sk & E & Jk). rewrite E. cbn [bind].
+    destruct (finish_J v sk Jk) as (sk' & E' & [Ik' (Tk' & _)]). rewrite E'. cbn [bind].
+    destruct (tree_par_toks_total (c_tree sk') (proj1 Ik') Tk') as [ps Ep]. rewrite Ep. cbn [bind].
+    destruct (IH Hlr (S i)) as [rest Er]. rewrite Er. cbn [bind]. eexists; reflexivity.
+Qed.
+
+Lemma kids_loop_J v path ks :
+  Forall (walk_J_at v) ks -> forallb (all_local_ok' v) ks = true ->
+  forall i s, J s -> exists s', kids_loop v path ks i s = Ok s' /\ J s'.
+Proof.
+  induction 1 as [|k r Hk Hr IH]; intros Hl i s HJ; cbn [kids_loop].
+  - exists s. split; [reflexivity|exact HJ].
+  - cbn [forallb] in Hl. apply andb_true_iff in Hl. destruct Hl as [Hlk Hlr].
+    destruct (Hk (i :: path) s Hlk HJ) as (s1 & E & J1). rewrite E. cbn [bind].
+    apply IH; assumption.
+Qed.
+
+Lemma walk_J v : forall t, walk_J_at v t.
+Proof.
+  apply ShapeFacts.anode_ind'.
+  - intros tl path s _ HJ. exists s. split; [reflexivity|exact HJ].
+  - intros e ks HF path s Hl HJ. cbn [all_local_ok'] in Hl.
+    apply andb_true_iff in Hl. destruct Hl as [Hloc Hks].
+    rewrite walk_AE. cbv zeta.
+    destruct (set_caret_opt_J (elem_depth (AE e ks)) (Some (e_local e)) s
+                (elem_depth_range _) HJ) as (s1 & E1 & J1).
+    rewrite E1. cbn [bind].
+    assert (Hb : exists body, (if str_eqb (e_ptag e) tag_HYPERLINK
+                               then below_loop v path ks 0 else Ok []) = Ok body).
+    { destruct (str_eqb (e_ptag e) tag_HYPERLINK); [|eexists; reflexivity].
+      apply below_loop_total; assumption. }
+    destruct Hb as [body Eb]. rewrite Eb. cbn [bind].
+    destruct (open_tag_J v path e ks body s1 Hloc J1) as (s2 & rec & E2 & J2).
+    rewrite E2. cbn [bind].
+    assert (H3 : exists s3, (if rec then kids_loop v path ks 0 s2 else Ok s2) = Ok s3 /\ J s3).
+    { destruct rec; [apply kids_loop_J; assumption|exists s2; split; [reflexivity|exact J2]]. }
+    destruct H3 as (s3 & E3 & J3). rewrite E3. cbn [bind].
+    destruct (close_tag_J v e ks s3 Hloc J3) as (s4 & E4 & J4). rewrite E4. cbn [bind].
+    apply set_caret_opt_J; [apply elem_depth_range|exact J4].
+Qed.
+
+(* no hypothesis on the numbering table is needed (finding 1) *)
+Lemma walk_total_strong : forall v t path s, all_local_ok' v t = true ->
+  Inv s -> runs_style_ok s ->
+  exists s', walk v path t s = Ok s' /\ Inv s' /\ runs_style_ok s'.
+Proof.
+  intros v t path s Hl HI HS.
+  destruct (walk_J v t path s Hl (conj HI HS)) as (s' & E & [I' S']). eauto.
+Qed.
+
+Lemma walk_total : forall v t path s, all_local_ok' v t = true -> starts_ok v ->
+  Inv s -> runs_style_ok s -> exists s', walk v path t s = Ok s'.
+Proof.
+  intros v t path s Hl _ HI HS.
+  destruct (walk_total_strong v t path s Hl HI HS) as (s' & E & _). eauto.
+Qed.
+
+Lemma finish_total : forall v s, Inv s -> runs_style_ok s ->
+  exists s', finish v s = Ok s' /\ Inv s' /\ runs_style_ok s'.
+Proof.
+  intros v s HI HS. destruct (finish_J v s (conj HI HS)) as (s' & E & [I' S']). eauto.
+Qed.
+
+Lemma collect_total_strong : forall v path t, all_local_ok' v t = true ->
+  exists s, collect_from v path t = Ok s /\ Inv s /\ runs_style_ok s.
+Proof.
+  intros v path t Hl. unfold collect_from.
+  destruct (walk_J v t path init_cst Hl init_J) as (s1 & E & J1). rewrite E. cbn [bind].
+  destruct (finish_J v s1 J1) as (s' & E' & [I' S']). eauto.
+Qed.
+
+Lemma collect_total : forall v path t, all_local_ok' v t = true -> starts_ok v ->
+  exists s, collect_from v path t = Ok s.
+Proof.
+  intros v path t Hl _. destruct (collect_total_strong v path t Hl) as (s & E & _). eauto.
+Qed.
+
+(* ---- the views of a collected tree render ---- *)
+Lemma rose_leaves_sty : forall n, node_sty n -> leaves_ok par_sty (rose_of_node (unrev n)).
+Proof.
+  fix IH 1. intros [l|p] H.
+  - inversion H as [|? Hl]; subst. cbn [unrev rose_of_node].
+    assert (HF : Forall (fun n => leaves_ok par_sty (rose_of_node (unrev n))) l).
+    { clear H. induction l as [|x l IHl]; [constructor|].
+      inversion Hl; subst. constructor; [apply IH; assumption|apply IHl; assumption]. }
+    intros addr q Hq. destruct addr as [|i r]; [discriminate Hq|]. cbn [index] in Hq.
+    destruct (nth_error (map rose_of_node (rev (map unrev l))) i) as [x|] eqn:En;
+      [|discriminate Hq].
+    apply nth_error_In in En. apply in_map_iff in En. destruct En as (n' & <- & In').
+    apply in_rev in In'. apply in_map_iff in In'. destruct In' as (n0 & <- & In0).
+    exact (proj1 (Forall_forall _ _) HF n0 In0 r q Hq).
+  - inversion H; subst. cbn [unrev rose_of_node]. intros addr q Hq.
+    destruct addr as [|i r]; [|discriminate Hq]. cbn [index] in Hq. injection Hq as <-. assumption.
+Qed.
+
+Lemma pars_view_leaves_sty : forall s, Forall node_sty (c_tree s) -> leaves_ok par_sty (pars_view s).
+Proof.
+  intros s H. change (pars_view s) with (rose_of_node (unrev (NL (c_tree s)))).
+  apply rose_leaves_sty. constructor. exact H.
+Qed.
+
+Lemma rendering_total_strong : forall v path t s, all_local_ok' v t = true ->
+  collect_from v path t = Ok s -> exists r, get_par_strings (html_on v) (pars_view s) = Ok r.
+Proof.
+  intros v path t s Hl E.
+  destruct (collect_total_strong v path t Hl) as (s0 & E0 & I0 & (T0 & _)).
+  rewrite E in E0. injection E0 as <-.
+  apply gps_total.
+  - apply pars_view_deep. apply unrev_shape. exact (proj1 I0).
+  - intros addr p Hp. apply par_run_strings_total.
+    exact (pars_view_leaves_sty s T0 addr p Hp).
+Qed.
+
+Lemma rendering_total : forall v path t s, all_local_ok' v t = true -> starts_ok v ->
+  collect_from v path t = Ok s -> exists r, get_par_strings (html_on v) (pars_view s) = Ok r.
+Proof. intros v path t s Hl _. apply rendering_total_strong. exact Hl. Qed.
+
+(* ---- finding 2: local_ok alone does not suffice ---- *)
+(* <w:p><w:r><w:rPr><w:vertAlign w:val=" "/></w:rPr><w:t>x</w:t></w:r></w:p> with
+   html on: every local evaluation succeeds, the walk succeeds, and
+   rendering the run raises IndexError (the style string " " has no first
+   word for html_close) *)
+Definition cx_el (tag loc : str) (attrs : list (aname * str)) (tx : option str)
+           (ks : list anode) : anode :=
+  AE {| e_ptag := tag; e_uri := Some [87]; e_local := loc; e_wuri := Some [87]; e_ruri := None;
+        e_attrs := attrs; e_text := tx; e_tail := None |} ks.
+Definition cx_doc : anode :=
+  cx_el tag_PARAGRAPH [112] [] None
+    [cx_el tag_RUN [114] [] None
+       [cx_el [119;58;114;80;114] [114;80;114] [] None
+          [cx_el [119;58;118;101;114;116;65;108;105;103;110] [118;101;114;116;65;108;105;103;110]
+                 [((Some [87], s_val), [32])] None []];
+        cx_el tag_TEXT [116] [] (Some [120]) []]].
+Definition cx_env : env :=
+  {| env_x2h := xml2html_table; env_rels := []; env_dup := false; env_numtbl := [] |}.
+
+Lemma style_check_needed :
+  all_local_ok cx_env cx_doc = true /\ all_local_ok' cx_env cx_doc = false /\
+  exists s, collect_from cx_env [] cx_doc = Ok s
+            /\ get_par_strings (html_on cx_env) (pars_view s) = Err IndexError.
+Proof.
+  split; [vm_compute; reflexivity|]. split; [vm_compute; reflexivity|].
+  destruct (collect_from cx_env [] cx_doc) as [s|x] eqn:E; [|vm_compute in E; discriminate E].
+  exists s. split; [reflexivity|].
+  assert (H : match collect_from cx_env [] cx_doc with
+              | Ok s => get_par_strings (html_on cx_env) (pars_view s)
+              | Err e => Err e
+              end = Err IndexError) by (vm_compute; reflexivity).
+  rewrite E in H. exact H.
+Qed.
+
+Lemma all_local_ok'_all_local_ok : forall v t, all_local_ok' v t = true -> all_local_ok v t = true.
+Proof.
+  intro v.
+  apply (ShapeFacts.anode_ind' (fun t => all_local_ok' v t = true -> all_local_ok v t = true));
+    [intros tl _; reflexivity|].
+  intros e ks HF H. cbn [all_local_ok' all_local_ok] in H |- *.
+  apply andb_true_iff in H. destruct H as [Hl Hk].
+  unfold local_ok' in Hl. apply andb_true_iff in Hl. destruct Hl as [Hl _]. rewrite Hl. cbn [andb].
+  apply forallb_forall. intros k Ik. apply (proj1 (Forall_forall _ _) HF k Ik).
+  exact (proj1 (forallb_forall _ _) Hk k Ik).
+Qed.
+
 Print Assumptions apply_numfn_total.
 Print Assumptions get_bullet_total.
-Print Assumptions get_bullet_starts_ok_counterexample.
+Print Assumptions get_bullet_total_strong.
+Print Assumptions par_number_nonneg.
+Print Assumptions walk_no_model_error.
+Print Assumptions no_internal_errors.
+Print Assumptions walk_total_strong.
+Print Assumptions walk_total.
+Print Assumptions finish_total.
+Print Assumptions tree_par_toks_total.
+Print Assumptions collect_total_strong.
+Print Assumptions collect_total.
+Print Assumptions rendering_total_strong.
+Print Assumptions rendering_total.
+Print Assumptions style_check_needed.
